@@ -163,6 +163,16 @@ def sec_slots_iter(repo, c):
     if re.sub(r'\s+', '', ip.group(1)) != 'self.len().saturating_sub(1)':
         raise TranslateError(f"{rel}: initial rev_pos is {ip.group(1)!r}, the model has len().saturating_sub(1)")
 
+def sec_derive_ordered_entry(repo, c):
+    # the derive must call the divide-and-conquer entry point for ordered collections (C18), never the full-table one
+    rel = 'derive/src/difference.rs'
+    t = read(repo, rel)
+    nh = len(re.findall(r'ordered_array_like::hirschberg\(', t))
+    nl = len(re.findall(r'ordered_array_like::levenshtein\(', t))
+    if nh < 1 or nl != 0:
+        raise TranslateError(f"{rel}: ordered templates call hirschberg {nh} times and levenshtein {nl} times; the model of the derive uses hirschberg only")
+    c['DERIVE_HIRSCHBERG_CALLS'] = nh
+
 def sec_features(repo, c):
     rel = 'Cargo.toml'
     t = read(repo, rel)
@@ -178,7 +188,7 @@ def sec_features(repo, c):
         feats[mm.group(1)] = [x.strip().strip('"') for x in mm.group(2).split(',') if x.strip()]
     c['FEATURES'] = feats
 
-SECTIONS = [('ordered', sec_ordered), ('ordered_wire', sec_ordered_wire), ('rope', sec_rope), ('slots_iter', sec_slots_iter), ('features', sec_features)]
+SECTIONS = [('ordered', sec_ordered), ('ordered_wire', sec_ordered_wire), ('rope', sec_rope), ('slots_iter', sec_slots_iter), ('derive_ordered_entry', sec_derive_ordered_entry), ('features', sec_features)]
 
 def translate(repo):
     """returns (constants, errors-by-section)"""
